@@ -56,6 +56,18 @@ func corrC07(c *corrCtx) {
 			}
 		}
 	}
+	// seekable sources (bytes.Reader, as os.File would be) already advanced past k foreign bytes:
+	// "the original source" is what it would deliver from its current position
+	for _, s := range seeds {
+		for _, k := range []int{1, 5, 4096} {
+			for _, ld := range []string{s.format, "auto"} {
+				if ld == "none" {
+					ld = "auto"
+				}
+				c07Seekable(c, "seekable/"+s.name, ld, s.data, k, r)
+			}
+		}
+	}
 	// larger files: structural boundaries ± 1
 	big := append(seedFiles(r, false), realFiles()...)
 	for _, s := range big {
@@ -81,6 +93,32 @@ func corrC07(c *corrCtx) {
 			}
 			c07Case(c, "bigtrunc/"+s.name, ld, s.data[:cut], fixedScheds[r.intn(len(fixedScheds))], r.intn(2) == 0, false)
 		}
+	}
+}
+
+// c07Seekable: the loader is handed a *bytes.Reader positioned k bytes into (foreign prefix ++ data).
+func c07Seekable(c *corrCtx, class, ld string, data []byte, k int, r *rng) {
+	all := append(r.bytes(k), data...)
+	src := bytes.NewReader(all)
+	skip := make([]byte, k)
+	src.Read(skip)
+	md, rest, err, p := safeLoad(loaders[ld], src)
+	meta := metaOut(md, err, p)
+	var replay []byte
+	end := "nil-stream"
+	if rest != nil {
+		replay, end = drain(rest, len(all)+16)
+	}
+	oracle := ""
+	if ld == "png" || ld == "auto" {
+		oracle = pngOracle(data)
+	}
+	pulledUnknown := "" // a bytes.Reader is not instrumented: compare result and replay only
+	_ = pulledUnknown
+	c.emit(class+"/"+ld, fmt.Sprintf("loadr %s %s%s", ld, hexs(data), oracle), fmt.Sprintf("%s replay=%s end=%s", meta, bytesDigest(replay), end))
+	if !bytes.Equal(replay, data) || end != "eof" {
+		c.direct(fmt.Sprintf("C07/%s/%s/offset%d", class, ld, k), "a seekable source positioned past a prefix is not replayed from its current position",
+			map[string]interface{}{"loader": ld, "start_offset": k, "want_len": len(data), "got_len": len(replay), "end": end, "meta": meta})
 	}
 }
 
@@ -115,6 +153,22 @@ func corrC08(c *corrCtx) {
 			m[r.intn(len(m))] ^= byte(1 << uint(r.intn(8)))
 			inputs = append(inputs, seedFile{s.name + "/flip", s.format, m, 0})
 		}
+	}
+	// streams that end exactly where a declared-length payload ends, with payloads large enough to
+	// be read directly (not through the bufio buffer): data + EOF in one call must not lose bytes
+	for _, psz := range []int{3000, 20000, 40000, 70000} {
+		prof := randProfilePayload(r, psz)
+		wd := randWebpDesc(r, "VP8X", prof)
+		full, needed := wd.build()
+		inputs = append(inputs, seedFile{fmt.Sprintf("webp-icc-exact-end-%d", psz), "webp", full[:needed], needed})
+		jd := randJpegDesc(r)
+		jd.iccSegs = splitICC(prof, []int{len(prof) % 65000, len(prof) - len(prof)%65000}[:1+len(prof)/65001])
+		if len(prof) <= 65000 {
+			jd.iccSegs = splitICC(prof, []int{len(prof)})
+		}
+		jd.iccAfterSOF = true
+		jfull, jneeded := jd.build()
+		inputs = append(inputs, seedFile{fmt.Sprintf("jpeg-icc-exact-end-%d", psz), "jpeg", jfull[:jneeded], jneeded})
 	}
 	for _, s := range inputs {
 		lds := []string{"auto"}
